@@ -71,6 +71,7 @@ class Interp:
         self.attr_hook = attr_hook  # attribute of a modelled object that is not stored on it (a @property of its class)
         self.str_hook = None  # text of a modelled object (its class's __str__/__repr__); set by the object-model runner
         self.yield_hook = None  # hands a yielded value to the consumer (generator evaluation)
+        self.def_hook = None  # value of a nested function definition (a closure over this environment)
         self.name_hook = name_hook  # resolves free names / attributes of free names (class references, builtins) or returns NotImplemented
         self.strict = strict  # concrete evaluation: a failed lookup is the program's own KeyError/IndexError, not a missing domain
         self.env = dict(env)
@@ -164,6 +165,10 @@ class Interp:
             return True
         if isinstance(node, ast.IfExp):
             return self.ev(node.body) if self.truth(self.ev(node.test), node.test) else self.ev(node.orelse)
+        if isinstance(node, ast.NamedExpr) and isinstance(node.target, ast.Name):
+            val = self.ev(node.value)
+            self.env[node.target.id] = val
+            return val
         if isinstance(node, ast.Yield) and self.yield_hook is not None:
             self.yield_hook(self.ev(node.value) if node.value is not None else None)
             return None
@@ -494,6 +499,16 @@ class Interp:
                         raise AnalysisError(f"guard language: cannot delete {U(tg)!r}")
                 elif self.strict and not isinstance(tg, ast.Name):
                     raise AnalysisError(f"guard language: cannot delete {U(tg)!r}")
+        elif isinstance(st, (ast.FunctionDef, ast.Lambda)) and self.def_hook is not None:
+            self.env[st.name] = self.def_hook(self, st)
+        elif hasattr(ast, "Match") and isinstance(st, ast.Match) and self.loop_hook is not None:
+            subject = self.ev(st.subject)
+            if isinstance(subject, Unknown):
+                raise AnalysisError(f"guard language: match on undetermined value {U(st.subject)!r}")
+            for case in st.cases:
+                if self._match(case.pattern, subject) and (case.guard is None or self.truth(self.ev(case.guard), case.guard)):
+                    self.run(case.body)
+                    break
         elif isinstance(st, ast.Assert) and self.loop_hook is not None:
             if not self.truth(self.ev(st.test), st.test):
                 raise Flow("raise", f"AssertionError({U(st.test)[:60]})", st)
@@ -546,6 +561,35 @@ class Interp:
                 f"guard language: statement {type(st).__name__} at line {st.lineno} is outside the analysable "
                 f"subset: {U(st)[:70]!r}"
             )
+
+    def _match(self, pat, subject):
+        """Structural pattern matching for the patterns found in line dispatchers: literals, alternatives, wildcard / capture, sequences."""
+        if isinstance(pat, ast.MatchValue):
+            return self.ev(pat.value) == subject
+        if isinstance(pat, ast.MatchSingleton):
+            return subject is pat.value
+        if isinstance(pat, ast.MatchOr):
+            return any(self._match(p_, subject) for p_ in pat.patterns)
+        if isinstance(pat, ast.MatchAs):
+            if pat.pattern is not None and not self._match(pat.pattern, subject):
+                return False
+            if pat.name is not None:
+                self.env[pat.name] = subject
+            return True
+        if isinstance(pat, ast.MatchSequence) and isinstance(subject, (list, tuple)):
+            stars = [i for i, p_ in enumerate(pat.patterns) if isinstance(p_, ast.MatchStar)]
+            if not stars:
+                return len(pat.patterns) == len(subject) and all(self._match(p_, v) for p_, v in zip(pat.patterns, subject))
+            k = stars[0]
+            after = len(pat.patterns) - k - 1
+            if len(subject) < k + after:
+                return False
+            ok = all(self._match(p_, v) for p_, v in zip(pat.patterns[:k], subject[:k])) and \
+                all(self._match(p_, v) for p_, v in zip(pat.patterns[k + 1:], subject[len(subject) - after:]))
+            if ok and pat.patterns[k].name is not None:
+                self.env[pat.patterns[k].name] = list(subject[k:len(subject) - after])
+            return ok
+        raise AnalysisError(f"guard language: pattern {type(pat).__name__} is outside the analysable subset")
 
     def ev_soft(self, node):
         """Evaluate, mapping 'no declared domain' to Unknown (legal unless later decided on)."""
